@@ -1,0 +1,24 @@
+//go:build verif
+
+package gmtls
+
+// Hooks for the consumer legs of the C01 check: verifyHandshakeSignature is unexported and so are
+// its signature-type constants.  Nothing here changes the behaviour of the package.
+
+import (
+	"crypto"
+	"crypto/ecdsa"
+
+	"github.com/tjfoc/gmsm/sm2"
+)
+
+// VerifVerifyHandshakeSignatureSM2 runs verifyHandshakeSignature(signatureSM2, pub, ...) on an *sm2.PublicKey.
+func VerifVerifyHandshakeSignatureSM2(pub *sm2.PublicKey, digest, sig []byte) error {
+	return verifyHandshakeSignature(signatureSM2, pub, crypto.Hash(0), digest, sig)
+}
+
+// VerifVerifyHandshakeSignatureECDSA runs verifyHandshakeSignature(signatureECDSA, pub, ...) on an
+// *ecdsa.PublicKey (the SM2 curve is recognised by pub.Curve == sm2.P256Sm2()).
+func VerifVerifyHandshakeSignatureECDSA(pub *ecdsa.PublicKey, digest, sig []byte) error {
+	return verifyHandshakeSignature(signatureECDSA, pub, crypto.Hash(0), digest, sig)
+}
